@@ -7,6 +7,7 @@
 #include <regex>
 #include <stdexcept>
 #include <string>
+#include <string_view>
 #include <variant>
 
 namespace fixture {
@@ -59,6 +60,21 @@ unsigned long good_block_read(const char* p, size_t n) {
     std::memcpy(&w, p + i, 8);
     acc ^= w;
   }
+  return acc;
+}
+
+unsigned bad_index_loop(std::string_view v, size_t from, size_t n) {
+  const size_t last = from + n - 1;
+  if (last > v.size()) return 0;
+  unsigned acc = 0;
+  for (size_t i = from; i <= last; ++i) acc += (unsigned char)v[i];
+  return acc;
+}
+
+unsigned good_index_loop(std::string_view v, size_t from, size_t n) {
+  if (from + n > v.size()) return 0;
+  unsigned acc = 0;
+  for (size_t i = from; i < from + n; ++i) acc += (unsigned char)v[i];
   return acc;
 }
 
